@@ -754,7 +754,41 @@ def dwell_surface():
     return Dwell
 
 
+def narrow_top_surface(d: int, sign: float):
+    """g(sign*x0) + sum of squares of the other coordinates, with g' = 100 (u + 1) u (u - 0.03) (u - 0.8) (u - 1.15),
+    g(0) = 0: a maximum at u = 0 (the transition state), a deep minimum at u = -1, and on the other side only a very
+    narrow dip (back above g(0) from u = 0.045 on), a barrier at 0.8 and a HIGH minimum at 1.15 with g > g(0).  Every
+    energy-lowering push-off probe on that side fails, the search falls back to its blind displacement and lands in
+    the basin of the high minimum — legitimate only because it flags it."""
+    from numpy.polynomial import polynomial as P
+    _, _, Potential = imports()
+    dg = np.array([100.0])
+    for root in (-1.0, 0.0, 0.03, 0.8, 1.15):
+        dg = P.polymul(dg, np.array([-root, 1.0]))
+    gg = P.polyint(dg)
+
+    class NarrowTop(Potential):
+        def __init__(self):
+            self.atomistic = False
+
+        def function(self, x):
+            x = np.asarray(x, dtype=float)
+            return float(P.polyval(sign * x[0], gg) + np.sum(x[1:] ** 2))
+
+        def gradient(self, x):
+            x = np.asarray(x, dtype=float)
+            g = 2.0 * x
+            g[0] = sign * P.polyval(sign * x[0], dg)
+            return g
+
+        def function_gradient(self, x):
+            return self.function(x), self.gradient(x)
+    return NarrowTop()
+
+
 def make_surface(spec: dict):
+    if spec["kind"] == "narrowtop":
+        return narrow_top_surface(spec["d"], spec["sign"]), [(-2.0, 2.0)] * spec["d"]
     if spec["kind"] == "dwell":
         return dwell_surface()(spec["d"]), [(-2.0, 2.0)] + [(0.0, 1.0)] * (spec["d"] - 1)
     Cos, Sep, Bowl = surfaces()
@@ -1273,6 +1307,17 @@ def predicates(ctx: Ctx) -> None:
                          (" (search object reused from earlier searches)" if reuse is not None else ""),
                          {"kind": "search", "surface": spec, "x0": x0, "np_seed": seed, "ts_steps": ts_steps,
                           "reused": reuse is not None})
+    # one-sided push-off failure: the success is legitimate only with the flag (both orientations, 1-D and 2-D)
+    for d in (1, 2):
+        for sign in (1.0, -1.0):
+            spec = {"kind": "narrowtop", "d": d, "sign": sign, "tol": 1e-5}
+            for x0 in ([-0.2 * sign] + [0.1] * (d - 1), [0.01 * sign] + [0.05] * (d - 1)):
+                seed = rng.randrange(2 ** 31)
+                r = pred_search(spec, x0, seed, 60)
+                ctx.stats.case({"stream": "predicate-search-one-sided-pushoff", "surface": spec, "x0": V(x0)}, True)
+                if r:
+                    ctx.fail(r[0], r[1], {"kind": "search", "surface": spec, "x0": x0, "np_seed": seed, "ts_steps": 60,
+                                          "reused": False})
     # searches started on a face that has to be left (the set of pinned coordinates changes during the search)
     for d in (3, 3, 4):
         spec = {"kind": "dwell", "d": d}
